@@ -1,13 +1,14 @@
 CONSTANTS
   HashMode = "collide"
   Bug = "none"
-  Sweeps = {"small", "hsmall", "xsmall", "ssmall", "ksmall", "nsmall"}
+  Sweeps = {"small", "hsmall", "xsmall", "ssmall", "ksmall", "nsmall", "fsmall"}
   PairDepth = 2
   NearDepth = 2
   DeepDepth = 3
   HierDepth = 3
   XDepth = 2
   SelfDepth = 3
+  FormDepth = 3
   Wide = TRUE
   EmitCases = FALSE
 INIT Init
